@@ -299,11 +299,21 @@ def check_scorer_params(prog: Program, res: Result) -> None:
     R = "C08-minpeaks"
     ci = prog.cls(f"{PG}:PAFScorer")
     given, derived = set(), set()
+    ac = prog.func(f"{PG}:assign_connections_to_instances")
+    typed_consumer = any(isinstance(c_, ast.Call) and norm(c_.func) == "isinstance" and c_.args and norm(c_.args[0]) == "min_instance_peaks" for c_ in walk_function(ac.node))
     for st in ci.node.body:
         if isinstance(st, ast.AnnAssign) and isinstance(st.target, ast.Name):
             v = st.value
             is_derived = isinstance(v, ast.Call) and any(k.arg == "init" and astq.const_value(k.value) is False for k in v.keywords)
             (derived if is_derived else given).add(st.target.id)
+            # assign_connections_to_instances tells a COUNT from a FRACTION by the Python type of min_instance_peaks
+            # (isinstance(..., float)): an attrs converter on that field changes what the caller's value means
+            if st.target.id == "min_instance_peaks" and typed_consumer:
+                conv = [k for k in v.keywords if k.arg == "converter"] if isinstance(v, ast.Call) else []
+                ok_c = not conv or astq.const_value(conv[0].value) is None
+                res.ob(R, ok_c, ci.qualname, "min_instance_peaks is stored as given (its int/float type carries meaning)",
+                       f"PAFScorer.min_instance_peaks is declared with `converter={short(conv[0].value, 30) if conv else ''}`: the grouping code reads an int as an absolute count and a float "
+                       "as a fraction of the nodes, so converting the caller's value changes the threshold", f"{ci.module.relpath}:{st.lineno}")
     res.ob(R, "min_instance_peaks" in given and "min_line_scores" in given, ci.qualname, "thresholds are constructor fields",
            f"PAFScorer no longer declares min_instance_peaks / min_line_scores as constructor fields (fields: {sorted(given)})", f"{ci.module.relpath}:{ci.node.lineno}")
     for fi in ci.methods.values():
